@@ -27,8 +27,7 @@ def run(tier, seed, verdict):
             "epoll_ties_checked", "uring_ties_checked", "tstc_done", "epoll_done", "uring_done",
             "tuel_stop_before_start", "epoll_far_future_cancelled"]
     missing = [k for k in need if not st.get(k)]
-    if missing:
-        raise core.HarnessFailure("timer stress observed none of: %s" % missing)
+    core.require_observed(verdict, missing, "timer stress")
     cov = {
         "evaluations": st.get("timers_total", 0),
         "distinct_nontrivial": sum(1 for v in st.values() if v) + sum(1 for v in res.hooks.values() if v),
